@@ -479,6 +479,10 @@ def num_term(v):
         if isinstance(v.value, int):
             return T.const(v.value)
         if isinstance(v.value, float):
+            if v.value != v.value:
+                return T.sym("nan")
+            if v.value in (float("inf"), float("-inf")):
+                return T.sym("inf") if v.value > 0 else -T.sym("inf")
             return T.P(v.value)
         return None
     if isinstance(v, VNum):
